@@ -81,7 +81,7 @@ pub fn check_geo(prop: &str, g: &GeoCase, rep: &mut Report) {
         // pts: n0 p0 n1 p1 n2 p2
         "intersect_planes" => {
             let pl = [Plane::new(p[0], p[1]), Plane::new(p[2], p[3]), Plane::new(p[4], p[5])];
-            let det = p[0].dot(p[2].cross(p[4])).abs();
+            let det = p[0].normalize().dot(p[2].normalize().cross(p[4].normalize())).abs();
             if det < 1e-8 {
                 rep.count("ill_conditioned_arguments", 1);
                 return;
@@ -96,7 +96,7 @@ pub fn check_geo(prop: &str, g: &GeoCase, rep: &mut Report) {
             let scale = mag.max(x.abs().max_element());
             let tol = CU * scale / det;
             for k in 0..3 {
-                let res = pl[k].n.dot(x - pl[k].p).abs();
+                let res = pl[k].n.normalize().dot(x - pl[k].p).abs();
                 rep.max("c19.intersect_planes_res_over_tol", res / tol);
                 if !(res <= tol) {
                     rep.violations.push(viol(prop, "c19.intersect_planes", format!("intersection {x:?} is {res:e} off plane {k} (tolerance {tol:e}, |det| = {det:e})"), g));
@@ -109,8 +109,8 @@ pub fn check_geo(prop: &str, g: &GeoCase, rep: &mut Report) {
             let pl = Plane::new(p[0], p[1]);
             let x = pl.project_onto(p[2]);
             let tol = CU * mag;
-            let res = pl.n.dot(x - pl.p).abs();
-            let side = (x - p[2]).cross(pl.n).length();
+            let res = pl.n.normalize().dot(x - pl.p).abs();
+            let side = (x - p[2]).cross(pl.n.normalize()).length();
             let again = pl.project_onto(x).distance(x);
             rep.max("c19.project_onto_res_over_tol", res.max(side).max(again) / tol);
             if !(res <= tol) {
@@ -124,7 +124,7 @@ pub fn check_geo(prop: &str, g: &GeoCase, rep: &mut Report) {
         // pts: n1, p1, n2, p2, point
         "project_onto_intersection" => {
             let (a, b) = (Plane::new(p[0], p[1]), Plane::new(p[2], p[3]));
-            let dir = a.n.cross(b.n);
+            let dir = a.n.normalize().cross(b.n.normalize());
             let s = dir.length();
             if s < 1e-6 {
                 rep.count("ill_conditioned_arguments", 1);
@@ -138,7 +138,7 @@ pub fn check_geo(prop: &str, g: &GeoCase, rep: &mut Report) {
                 }
             };
             let tol = CU * mag.max(x.abs().max_element()) / (s * s);
-            let (ra, rb) = (a.n.dot(x - a.p).abs(), b.n.dot(x - b.p).abs());
+            let (ra, rb) = (a.n.normalize().dot(x - a.p).abs(), b.n.normalize().dot(x - b.p).abs());
             let along = (x - p[4]).dot(dir / s).abs();
             let again = a.project_onto_intersection(&b, x).distance(x);
             rep.max("c19.project_onto_intersection_res_over_tol", ra.max(rb).max(along).max(again) / tol);
@@ -262,10 +262,11 @@ pub fn check_geo(prop: &str, g: &GeoCase, rep: &mut Report) {
                 return;
             }
             let s = Sphere::from_four_points(a, b, c, d);
-            // from_four_points works on absolute coordinates: its error grows with (|p| / extent)^2..3
+            // from_four_points works on absolute coordinates (4x4 determinants with squared norms): the centre carries an
+            // error ~ u M (M / extent)^3 and the radius, a difference of two terms of size M^2, ~ u M (M / extent)^4
             let ext = e[0].length().max(e[1].length()).max(e[2].length());
             let amp = (mag / ext).max(1.);
-            let tol = CU * mag * cond * amp * amp * amp;
+            let tol = 64. * CU * mag * cond * amp * amp * amp * amp;
             let mut worst: f64 = 0.;
             for q in [a, b, c, d] {
                 worst = worst.max((s.center.distance(q) - s.radius).abs());
@@ -316,14 +317,23 @@ fn gen_geo(r: &mut Rng) -> GeoCase {
     let kind = *r.pick(&kinds);
     let structured = r.below(4) == 0;
     let axis = |r: &mut Rng| *r.pick(&[DVec3::X, DVec3::Y, DVec3::Z, DVec3::NEG_X, DVec3::NEG_Y, DVec3::NEG_Z]);
-    let nrm = |r: &mut Rng| if structured { axis(r) } else { unit(r) };
+    // a plane may be given with a normal of any length (Plane::new stores it as given)
+    let nonunit = r.below(3) == 0;
+    let nrm = |r: &mut Rng| {
+        let n = if structured { axis(r) } else { unit(r) };
+        if nonunit {
+            n * *r.pick(&[0.1, 0.5, 2., 3., 10.])
+        } else {
+            n
+        }
+    };
     let pts = match kind {
         "intersect_planes" => {
             let mut v = vec![];
             // nearly dependent triples now and then (condition number recorded by the checker)
             let n0 = nrm(r);
             let n1 = nrm(r);
-            let n2 = if r.below(6) == 0 { (n0 + n1 * r.range(0.5, 2.) + 1e-5 * unit(r)).normalize() } else { nrm(r) };
+            let n2 = if r.below(6) == 0 { (n0.normalize() + n1.normalize() * r.range(0.5, 2.) + 1e-5 * unit(r)).normalize() } else { nrm(r) };
             for n in [n0, n1, n2] {
                 v.push(n);
                 v.push(point(r, scale, off));
